@@ -1715,6 +1715,9 @@ class Interp(object):
         return Term(f.path, args, kwargs)
       raise Unsupported("call of unmodelled library function %s" % f.path)
     if isinstance(f, Term):
+      hooks = getattr(self, "term_hooks", None)
+      if hooks and f.op == "attr" and f.args[1] in hooks:
+        return hooks[f.args[1]](self, f.args[0], args, kwargs)
       return Term("call", (f,) + tuple(args), kwargs)
     if isinstance(f, _PyMethod):
       return f(self, args, kwargs)
